@@ -24,14 +24,17 @@ func (m AcceptAllValidFeedbackMapper) HandleProposedHeader(
 		return gexchange.FeedbackAccepted
 
 	case HandleProposedHeaderRoundTooOld,
+		HandleProposedHeaderRoundTooFarInFuture,
 		HandleProposedHeaderInternalError:
 		return gexchange.FeedbackIgnored
 
 	case HandleProposedHeaderSignerUnrecognized,
 		HandleProposedHeaderBadSignature,
 		HandleProposedHeaderBadBlockHash,
+		HandleProposedHeaderMissingProposerPubKey,
 		HandleProposedHeaderBadPrevCommitProofPubKeyHash,
 		HandleProposedHeaderBadPrevCommitProofSignature,
+		HandleProposedHeaderBadPrevCommitProofDoubleSigned,
 		HandleProposedHeaderBadPrevCommitVoteCount:
 		return gexchange.FeedbackRejected
 
@@ -59,15 +62,18 @@ func (m AcceptAllValidFeedbackMapper) mapVoteResult(
 ) gexchange.Feedback {
 	switch f {
 	case HandleVoteProofsNoNewSignatures,
-		HandleVoteProofsAccepted:
+		HandleVoteProofsAccepted,
+		HandleVoteProofsFutureVerified:
 		return gexchange.FeedbackAccepted
 
 	case HandleVoteProofsRoundTooOld,
+		HandleVoteProofsFutureUnverified,
 		HandleVoteProofsInternalError:
 		return gexchange.FeedbackIgnored
 
 	case HandleVoteProofsEmpty,
-		HandleVoteProofsBadPubKeyHash:
+		HandleVoteProofsBadPubKeyHash,
+		HandleVoteProofsBadSignature:
 		return gexchange.FeedbackRejected
 
 	default:
@@ -91,6 +97,7 @@ func (m DropDuplicateFeedbackMapper) HandleProposedHeader(
 		return gexchange.FeedbackAccepted
 
 	case HandleProposedHeaderRoundTooOld,
+		HandleProposedHeaderRoundTooFarInFuture,
 		HandleProposedHeaderInternalError,
 		HandleProposedHeaderAlreadyStored:
 		return gexchange.FeedbackIgnored
@@ -98,8 +105,10 @@ func (m DropDuplicateFeedbackMapper) HandleProposedHeader(
 	case HandleProposedHeaderSignerUnrecognized,
 		HandleProposedHeaderBadSignature,
 		HandleProposedHeaderBadBlockHash,
+		HandleProposedHeaderMissingProposerPubKey,
 		HandleProposedHeaderBadPrevCommitProofPubKeyHash,
 		HandleProposedHeaderBadPrevCommitProofSignature,
+		HandleProposedHeaderBadPrevCommitProofDoubleSigned,
 		HandleProposedHeaderBadPrevCommitVoteCount:
 		return gexchange.FeedbackRejected
 
@@ -126,16 +135,19 @@ func (m DropDuplicateFeedbackMapper) mapVoteResult(
 	f HandleVoteProofsResult, name string,
 ) gexchange.Feedback {
 	switch f {
-	case HandleVoteProofsAccepted:
+	case HandleVoteProofsAccepted,
+		HandleVoteProofsFutureVerified:
 		return gexchange.FeedbackAccepted
 
 	case HandleVoteProofsRoundTooOld,
 		HandleVoteProofsNoNewSignatures,
+		HandleVoteProofsFutureUnverified,
 		HandleVoteProofsInternalError:
 		return gexchange.FeedbackIgnored
 
 	case HandleVoteProofsEmpty,
-		HandleVoteProofsBadPubKeyHash:
+		HandleVoteProofsBadPubKeyHash,
+		HandleVoteProofsBadSignature:
 		return gexchange.FeedbackRejected
 
 	default:
